@@ -4,7 +4,9 @@
 set -u
 P=$1; NAME=${2:-$P}; WT=/tmp/wt_$NAME; SO=/tmp/seed_out/$NAME; OUT=/verif/seeded/$NAME
 export CARGO_NET_OFFLINE=true
+PHASE=${PHASE:-AB}      # A: the worktree part only (demo with / without, suite) - can run for several seeds in parallel; B: the /repo part only (serial)
 mkdir -p $OUT
+if [ "$PHASE" != "B" ]; then
 cd $WT || exit 1
 git diff > /tmp/cur_$NAME.diff
 if ! diff -q /tmp/cur_$NAME.diff $SO/patch.diff >/dev/null; then echo "NOTE: worktree diff differs from patch.diff; re-applying"; git checkout -- . ; git apply $SO/patch.diff || exit 1; fi
@@ -26,6 +28,8 @@ echo "== demo WITHOUT patch (expect pass)"; git apply -R $SO/patch.diff; run_dem
 cp $SO/patch.diff $OUT/patch.diff; cp $SO/notes.md $OUT/notes.md 2>/dev/null
 rm -rf $OUT/demo; mkdir -p $OUT/demo
 if [ -d $DEMO ]; then (cd $DEMO && tar cf - --exclude target --exclude Cargo.lock . ) | tar xf - -C $OUT/demo; else cp $SO/demo.diff $SO/*.rs $OUT/demo/ 2>/dev/null; echo "git apply demo.diff; cargo test --offline $DEMOARGS" > $OUT/demo/COMMAND; fi
+fi   # PHASE A
+if [ "$PHASE" = "A" ]; then exit 0; fi
 echo "== check against /repo with the patch"
 cd /verif
 PATCH=$SO/patch.diff; if [ -f $SO/patch_adapted.diff ]; then PATCH=$SO/patch_adapted.diff; cp $PATCH $OUT/patch_adapted.diff; fi
